@@ -1,4 +1,5 @@
 import Verif.Model.AcmeSM
+import Verif.Model.AcmeConc
 /-!
   C10 — ACME orders, authorizations and challenges only move forward, and only for cause.
 
@@ -137,10 +138,10 @@ theorem upd_setAuthz (now : Nat) (s : Store) (a : Nat) (az : Authz) (st : Status
   · intro i o h0
     exact ⟨o, h0, rfl, rfl, rfl, rfl, .inl rfl⟩
 
-theorem authzUpdate_upd (s : Store) (a now : Nat) :
-    Upd now s (authzUpdate s a now).1 ∧
-    ∀ st, (authzUpdate s a now).2 = some st →
-      ∃ az', (authzUpdate s a now).1.authzs[a]? = some az' ∧ az'.status = st := by
+theorem authzUpdate_upd (d : Deny) (s : Store) (a now : Nat) :
+    Upd now s (authzUpdate d s a now).1 ∧
+    ∀ st, (authzUpdate d s a now).2 = some st →
+      ∃ az', (authzUpdate d s a now).1.authzs[a]? = some az' ∧ az'.status = st := by
   unfold authzUpdate
   cases h : s.authzs[a]? with
   | none => simp [Upd.refl]
@@ -160,30 +161,34 @@ theorem authzUpdate_upd (s : Store) (a now : Nat) :
       simp only
       split
       · rename_i hexp
+        split
+        · simp [Upd.refl]
         refine ⟨upd_setAuthz now s a az .invalid h ⟨rfl, rfl, rfl, .inr (.inl ⟨hs, rfl, hexp⟩)⟩, ?_⟩
         intro st e; cases e
         exact ⟨{ az with status := .invalid }, by simp [setAuthz, hlt], rfl⟩
       · rename_i hexp
         split
         · rename_i hany
+          split
+          · simp [Upd.refl]
           have : ∃ c ∈ az.chals, chalValid s c = true := by simpa using hany
           refine ⟨upd_setAuthz now s a az .valid h ⟨rfl, rfl, rfl, .inr (.inr ⟨hs, rfl, by omega, this⟩)⟩, ?_⟩
           intro st e; cases e
           exact ⟨{ az with status := .valid }, by simp [setAuthz, hlt], rfl⟩
         · exact ⟨Upd.refl _ _, fun st e => ⟨az, h, by cases e; exact hs⟩⟩
 
-theorem authzLoop_upd (now : Nat) : ∀ (as : List Nat) (s : Store),
-    Upd now s (authzLoop s now as).1 ∧
-    ∀ sts, (authzLoop s now as).2 = some sts → sts.all (· == .valid) = true →
-      ∀ a ∈ as, validAz (authzLoop s now as).1 a := by
+theorem authzLoop_upd (d : Deny) (now : Nat) : ∀ (as : List Nat) (s : Store),
+    Upd now s (authzLoop d s now as).1 ∧
+    ∀ sts, (authzLoop d s now as).2 = some sts → sts.all (· == .valid) = true →
+      ∀ a ∈ as, validAz (authzLoop d s now as).1 a := by
   intro as
   induction as with
   | nil => intro s; simp [authzLoop, Upd.refl]
   | cons a as ih =>
     intro s
-    obtain ⟨u1, r1⟩ := authzUpdate_upd s a now
+    obtain ⟨u1, r1⟩ := authzUpdate_upd d s a now
     unfold authzLoop
-    cases h1 : authzUpdate s a now with
+    cases h1 : authzUpdate d s a now with
     | mk s1 r =>
       rw [h1] at u1 r1
       cases r with
@@ -191,7 +196,7 @@ theorem authzLoop_upd (now : Nat) : ∀ (as : List Nat) (s : Store),
       | some st =>
         simp only
         obtain ⟨u2, r2⟩ := ih s1
-        cases h2 : authzLoop s1 now as with
+        cases h2 : authzLoop d s1 now as with
         | mk s2 r' =>
           rw [h2] at u2 r2
           cases r' with
@@ -233,20 +238,20 @@ theorem upd_setOrder (now : Nat) (s : Store) (o : Nat) (ord : Order) (st : Statu
 theorem setOrder_authzs (s : Store) (o : Nat) (ord : Order) (st : Status) (c : Option Nat) :
     (setOrder s o ord st c).authzs = s.authzs := rfl
 
-theorem authzUpdate_orders (s : Store) (a now : Nat) : (authzUpdate s a now).1.orders = s.orders := by
+theorem authzUpdate_orders (d : Deny) (s : Store) (a now : Nat) : (authzUpdate d s a now).1.orders = s.orders := by
   unfold authzUpdate
   repeat' split
   all_goals rfl
 
-theorem authzLoop_orders (now : Nat) : ∀ (as : List Nat) (s : Store), (authzLoop s now as).1.orders = s.orders := by
+theorem authzLoop_orders (d : Deny) (now : Nat) : ∀ (as : List Nat) (s : Store), (authzLoop d s now as).1.orders = s.orders := by
   intro as
   induction as with
   | nil => intro s; rfl
   | cons a as ih =>
     intro s
     unfold authzLoop
-    have h1 := authzUpdate_orders s a now
-    cases hu : authzUpdate s a now with
+    have h1 := authzUpdate_orders d s a now
+    cases hu : authzUpdate d s a now with
     | mk s1 r =>
       rw [hu] at h1
       cases r with
@@ -254,15 +259,15 @@ theorem authzLoop_orders (now : Nat) : ∀ (as : List Nat) (s : Store), (authzLo
       | some st =>
         simp only
         have h2 := ih s1
-        cases hl : authzLoop s1 now as with
+        cases hl : authzLoop d s1 now as with
         | mk s2 r' =>
           rw [hl] at h2
           cases r' <;> exact h2.trans h1
 
-theorem orderUpdate_upd (s : Store) (o now : Nat) :
-    Upd now s (orderUpdate s o now).1 ∧
-    ∀ st, (orderUpdate s o now).2 = some st →
-      ∃ o', (orderUpdate s o now).1.orders[o]? = some o' ∧ o'.status = st := by
+theorem orderUpdate_upd (d : Deny) (s : Store) (o now : Nat) :
+    Upd now s (orderUpdate d s o now).1 ∧
+    ∀ st, (orderUpdate d s o now).2 = some st →
+      ∃ o', (orderUpdate d s o now).1.orders[o]? = some o' ∧ o'.status = st := by
   unfold orderUpdate
   cases h : s.orders[o]? with
   | none => simp [Upd.refl]
@@ -275,35 +280,43 @@ theorem orderUpdate_upd (s : Store) (o now : Nat) :
     | ready =>
       simp only
       split
-      · refine ⟨upd_setOrder now s o ord .invalid h ⟨rfl, rfl, rfl, rfl, .inr (.inl ⟨.inr hs, rfl⟩)⟩, ?_⟩
+      · split
+        · simp [Upd.refl]
+        refine ⟨upd_setOrder now s o ord .invalid h ⟨rfl, rfl, rfl, rfl, .inr (.inl ⟨.inr hs, rfl⟩)⟩, ?_⟩
         intro st e; cases e
         exact ⟨{ ord with status := .invalid }, by simp [setOrder, hlt], rfl⟩
       · exact ⟨Upd.refl _ _, fun st e => ⟨ord, h, by cases e; exact hs⟩⟩
     | pending =>
       simp only
       split
-      · refine ⟨upd_setOrder now s o ord .invalid h ⟨rfl, rfl, rfl, rfl, .inr (.inl ⟨.inl hs, rfl⟩)⟩, ?_⟩
+      · split
+        · simp [Upd.refl]
+        refine ⟨upd_setOrder now s o ord .invalid h ⟨rfl, rfl, rfl, rfl, .inr (.inl ⟨.inl hs, rfl⟩)⟩, ?_⟩
         intro st e; cases e
         exact ⟨{ ord with status := .invalid }, by simp [setOrder, hlt], rfl⟩
       · rename_i hexp
-        obtain ⟨u1, r1⟩ := authzLoop_upd now ord.authzs s
-        cases hl : authzLoop s now ord.authzs with
+        obtain ⟨u1, r1⟩ := authzLoop_upd d now ord.authzs s
+        cases hl : authzLoop d s now ord.authzs with
         | mk s1 r =>
           rw [hl] at u1 r1
-          have ho1 : s1.orders = s.orders := by have := authzLoop_orders now ord.authzs s; rw [hl] at this; exact this
+          have ho1 : s1.orders = s.orders := by have := authzLoop_orders d now ord.authzs s; rw [hl] at this; exact this
           have h1 : s1.orders[o]? = some ord := by rw [ho1]; exact h
           cases r with
           | none => simp; exact u1
           | some sts =>
             simp only
             split
-            · refine ⟨u1.trans (upd_setOrder now s1 o ord .invalid h1 ⟨rfl, rfl, rfl, rfl, .inr (.inl ⟨.inl hs, rfl⟩)⟩), ?_⟩
+            · split
+              · simp; exact u1
+              refine ⟨u1.trans (upd_setOrder now s1 o ord .invalid h1 ⟨rfl, rfl, rfl, rfl, .inr (.inl ⟨.inl hs, rfl⟩)⟩), ?_⟩
               intro st e; cases e
               exact ⟨{ ord with status := .invalid }, by simp [setOrder, ho1, hlt], rfl⟩
             · split
               · exact ⟨u1, fun st e => ⟨ord, h1, by cases e; exact hs⟩⟩
               · split
                 · rename_i hall
+                  split
+                  · simp; exact u1
                   refine ⟨u1.trans (upd_setOrder now s1 o ord .ready h1
                     ⟨rfl, rfl, rfl, rfl, .inr (.inr ⟨hs, rfl, by omega, ?_⟩)⟩), ?_⟩
                   · intro a ha
@@ -314,7 +327,7 @@ theorem orderUpdate_upd (s : Store) (o now : Nat) :
                 · simp; exact u1
 
 
-theorem orderUpdate_ready (s : Store) (o now : Nat) (h : (orderUpdate s o now).2 = some .ready) :
+theorem orderUpdate_ready (d : Deny) (s : Store) (o now : Nat) (h : (orderUpdate d s o now).2 = some .ready) :
     ∃ ord, s.orders[o]? = some ord ∧ now ≤ ord.expires ∧ (ord.status = .pending ∨ ord.status = .ready) := by
   unfold orderUpdate at h
   cases ho : s.orders[o]? with
@@ -324,10 +337,10 @@ theorem orderUpdate_ready (s : Store) (o now : Nat) (h : (orderUpdate s o now).2
     simp only [ho] at h
     cases hs : ord.status <;> simp only [hs] at h
     · split at h
-      · cases h
+      · split at h <;> cases h
       · rename_i hexp; exact ⟨by omega, .inl rfl⟩
     · split at h
-      · cases h
+      · split at h <;> cases h
       · rename_i hexp; exact ⟨by omega, .inr rfl⟩
     · cases h
     · cases h
@@ -338,15 +351,15 @@ theorem upd_of_eq (now : Nat) (s s' : Store) (h1 : s'.chals = s.chals) (h2 : s'.
    fun i az h => ⟨az, by rw [h2]; exact h, AzJust.refl _ _ _⟩,
    fun i o h => ⟨o, by rw [h3]; exact h, rfl, rfl, rfl, rfl, .inl rfl⟩⟩
 
-theorem pollLoop_upd (now : Nat) : ∀ (os : List Nat) (s : Store), Upd now s (pollLoop s now os).1 := by
+theorem pollLoop_upd (d : Deny) (now : Nat) : ∀ (os : List Nat) (s : Store), Upd now s (pollLoop d s now os).1 := by
   intro os
   induction os with
   | nil => intro s; exact Upd.refl _ _
   | cons o os ih =>
     intro s
     unfold pollLoop
-    have u1 := (orderUpdate_upd s o now).1
-    cases h1 : orderUpdate s o now with
+    have u1 := (orderUpdate_upd d s o now).1
+    cases h1 : orderUpdate d s o now with
     | mk s1 r =>
       rw [h1] at u1
       cases r with
@@ -354,16 +367,16 @@ theorem pollLoop_upd (now : Nat) : ∀ (os : List Nat) (s : Store), Upd now s (p
       | some st =>
         simp only
         have u2 := ih s1
-        cases h2 : pollLoop s1 now os with
+        cases h2 : pollLoop d s1 now os with
         | mk s2 r' =>
           rw [h2] at u2
           cases r' <;> exact u1.trans u2
 
-theorem pollIndex_upd (s : Store) (acct now : Nat) (add : List Nat) : Upd now s (pollIndex s acct now add).1 := by
+theorem pollIndex_upd (d : Deny) (s : Store) (acct now : Nat) (add : List Nat) : Upd now s (pollIndex d s acct now add).1 := by
   unfold pollIndex
   simp only
-  have u := pollLoop_upd now ((indexOf s acct).getD []) s
-  cases h : pollLoop s now ((indexOf s acct).getD []) with
+  have u := pollLoop_upd d now ((indexOf s acct).getD []) s
+  cases h : pollLoop d s now ((indexOf s acct).getD []) with
   | mk s1 r =>
     rw [h] at u
     cases r with
@@ -391,7 +404,7 @@ def OrdStep (op : Op) (s s' : Store) (i : Nat) (o o' : Order) : Prop :=
       (o.status = .ready ∨ (o.status = .pending ∧ ∀ a ∈ o.authzs, validAz s' a)) ∧
       o'.cert = some s.certs.length ∧ s'.certs = s.certs ++ [⟨i, o.acct⟩]))
 
-structure Old (op : Op) (s s' : Store) : Prop where
+structure Old (d : Deny) (op : Op) (s s' : Store) : Prop where
   chal : ∀ (i : Nat) (c : Chal), s.chals[i]? = some c → ∃ c', s'.chals[i]? = some c' ∧ ChalStep op i c c'
   authz : ∀ (i : Nat) (az : Authz), s.authzs[i]? = some az →
     ∃ az', s'.authzs[i]? = some az' ∧ AzJust s op.now az az'
@@ -399,7 +412,8 @@ structure Old (op : Op) (s s' : Store) : Prop where
     ∃ o', s'.orders[i]? = some o' ∧ OrdStep op s s' i o o'
   certs : s'.certs = s.certs ∨
     ∃ i o, s.orders[i]? = some o ∧ s'.certs = s.certs ++ [⟨i, o.acct⟩] ∧
-      ((∃ o', s'.orders[i]? = some o' ∧ o.status ≠ .valid ∧ o'.status = .valid) ∨ op.faultFree = false)
+      ((∃ o', s'.orders[i]? = some o' ∧ o.status ≠ .valid ∧ o'.status = .valid) ∨
+       Req.finalWriteFails (d, op) = true)
 
 theorem ordStep_of_just {op : Op} {s s' : Store} {i : Nat} {o o' : Order}
     (h : OrdJust s' op.now o o') : OrdStep op s s' i o o' := by
@@ -410,16 +424,16 @@ theorem ordStep_of_just {op : Op} {s s' : Store} {i : Nat} {o o' : Order}
   · exact .inr (.inl ⟨p, q, c⟩)
   · exact .inr (.inr (.inl ⟨p, q, c, r, w⟩))
 
-theorem old_of_upd {op : Op} {s s' : Store} (u : Upd op.now s s') : Old op s s' := by
+theorem old_of_upd {d : Deny} {op : Op} {s s' : Store} (u : Upd op.now s s') : Old d op s s' := by
   refine ⟨?_, u.authz, ?_, .inl u.certs⟩
   · intro i c h; exact ⟨c, by rw [u.chals]; exact h, rfl, .inl rfl⟩
   · intro i o h
     obtain ⟨o', h', j⟩ := u.order i o h
     exact ⟨o', h', ordStep_of_just j⟩
 
-theorem respond_old (s : Store) (acct c now : Nat) (out : Outcome) :
-    Old (.respond acct c now out) s (respond s acct c out).1 := by
-  have base : Old (.respond acct c now out) s s := old_of_upd (Upd.refl _ _)
+theorem respond_old (d : Deny) (s : Store) (acct c now : Nat) (out : Outcome) :
+    Old d (.respond acct c now out) s (respond d s acct c out).1 := by
+  have base : Old d (.respond acct c now out) s s := old_of_upd (Upd.refl _ _)
   unfold respond
   cases h : s.chals[c]? with
   | none => exact base
@@ -434,8 +448,10 @@ theorem respond_old (s : Store) (acct c now : Nat) (out : Outcome) :
     rename_i hst
     have hacct' : ch.acct = acct := by simpa using hacct
     have hst' : ch.status = .pending := by simpa using hst
+    split
+    · exact base
     have mk : ∀ st, ((out = .success ∧ st = Status.valid) ∨ (out = .reject ∧ st = Status.invalid)) →
-        Old (.respond acct c now out) s (setChal s c ch st) := by
+        Old d (.respond acct c now out) s (setChal s c ch st) := by
       intro st hout
       refine ⟨?_, fun i az h0 => ⟨az, h0, AzJust.refl _ _ _⟩,
         fun i o h0 => ⟨o, h0, rfl, rfl, rfl, .inl ⟨rfl, rfl⟩⟩, .inl rfl⟩
@@ -452,49 +468,49 @@ theorem respond_old (s : Store) (acct c now : Nat) (out : Outcome) :
     | reject => exact mk .invalid (.inr ⟨rfl, rfl⟩)
     | dbError => exact base
 
-theorem getAuthz_old (s : Store) (acct a now : Nat) :
-    Old (.getAuthz acct a now) s (getAuthz s acct a now).1 := by
-  have base : Old (.getAuthz acct a now) s s := old_of_upd (Upd.refl _ _)
+theorem getAuthz_old (d : Deny) (s : Store) (acct a now : Nat) :
+    Old d (.getAuthz acct a now) s (getAuthz d s acct a now).1 := by
+  have base : Old d (.getAuthz acct a now) s s := old_of_upd (Upd.refl _ _)
   unfold getAuthz
   split
   · exact base
   split
   · exact base
-  have u := (authzUpdate_upd s a now).1
-  cases h : authzUpdate s a now with
+  have u := (authzUpdate_upd d s a now).1
+  cases h : authzUpdate d s a now with
   | mk s1 r =>
     rw [h] at u
     cases r <;> exact old_of_upd (op := .getAuthz acct a now) u
 
-theorem getOrder_old (s : Store) (acct o now : Nat) :
-    Old (.getOrder acct o now) s (getOrder s acct o now).1 := by
-  have base : Old (.getOrder acct o now) s s := old_of_upd (Upd.refl _ _)
+theorem getOrder_old (d : Deny) (s : Store) (acct o now : Nat) :
+    Old d (.getOrder acct o now) s (getOrder d s acct o now).1 := by
+  have base : Old d (.getOrder acct o now) s s := old_of_upd (Upd.refl _ _)
   unfold getOrder
   split
   · exact base
   split
   · exact base
-  have u := (orderUpdate_upd s o now).1
-  cases h : orderUpdate s o now with
+  have u := (orderUpdate_upd d s o now).1
+  cases h : orderUpdate d s o now with
   | mk s1 r =>
     rw [h] at u
     cases r <;> exact old_of_upd (op := .getOrder acct o now) u
 
-theorem listOrders_old (s : Store) (acct url now : Nat) :
-    Old (.listOrders acct url now) s (listOrders s acct url now).1 := by
+theorem listOrders_old (d : Deny) (s : Store) (acct url now : Nat) :
+    Old d (.listOrders acct url now) s (listOrders d s acct url now).1 := by
   unfold listOrders
   split
   · exact old_of_upd (Upd.refl _ _)
-  have u := pollIndex_upd s acct now []
-  cases h : pollIndex s acct now [] with
+  have u := pollIndex_upd d s acct now []
+  cases h : pollIndex d s acct now [] with
   | mk s1 r =>
     rw [h] at u
     cases r <;> exact old_of_upd (op := .listOrders acct url now) u
 
 
-theorem finalize_old (s : Store) (acct o now : Nat) (csrOk signOk updFail : Bool) :
-    Old (.finalize acct o now csrOk signOk updFail) s (finalize s acct o now csrOk signOk updFail).1 := by
-  have base : Old (.finalize acct o now csrOk signOk updFail) s s := old_of_upd (Upd.refl _ _)
+theorem finalize_old (d : Deny) (s : Store) (acct o now : Nat) (csrOk signOk updFail : Bool) :
+    Old d (.finalize acct o now csrOk signOk updFail) s (finalize d s acct o now csrOk signOk updFail).1 := by
+  have base : Old d (.finalize acct o now csrOk signOk updFail) s s := old_of_upd (Upd.refl _ _)
   unfold finalize
   cases ho : s.orders[o]? with
   | none => exact base
@@ -504,13 +520,13 @@ theorem finalize_old (s : Store) (acct o now : Nat) (csrOk signOk updFail : Bool
     · exact base
     rename_i hacct
     have hacct' : ord.acct = acct := by simpa using hacct
-    obtain ⟨u, hret⟩ := orderUpdate_upd s o now
-    have hrdy := orderUpdate_ready s o now
-    cases hu : orderUpdate s o now with
+    obtain ⟨u, hret⟩ := orderUpdate_upd d s o now
+    have hrdy := orderUpdate_ready d s o now
+    cases hu : orderUpdate d s o now with
     | mk s1 r =>
       rw [hu] at u hret hrdy
       dsimp only at u hret hrdy
-      have ou : Old (.finalize acct o now csrOk signOk updFail) s s1 := old_of_upd u
+      have ou : Old d (.finalize acct o now csrOk signOk updFail) s s1 := old_of_upd u
       cases r with
       | none => exact ou
       | some st =>
@@ -543,9 +559,15 @@ theorem finalize_old (s : Store) (acct o now : Nat) (csrOk signOk updFail : Bool
             · intro i oi h
               obtain ⟨oi', h', j⟩ := u.order i oi h
               exact ⟨oi', h', ordStep_of_just j⟩
-            · exact .inr ⟨o, ord, ho, by simp [u.certs], .inr (by simp [Op.faultFree, hfail])⟩
+            · exact .inr ⟨o, ord, ho, by simp [u.certs], .inr (by
+                rcases hfail with hf | hf
+                · simp [Req.finalWriteFails, hf]
+                · simp [Req.finalWriteFails, hf])⟩
           · rename_i hfail
-            have hfail' : updFail = false := by simpa using hfail
+            have hfail' : updFail = false := by
+              cases hu' : updFail
+              · rfl
+              · exact absurd (.inl hu') hfail
             simp only [ho1]
             refine ⟨?_, ?_, ?_, ?_⟩
             · intro i c h; exact ⟨c, by simp [setOrder, u.chals, h], rfl, .inl rfl⟩
@@ -646,7 +668,7 @@ theorem chalValid_of_grow {s s' : Store} (g : Grow s s') {c : Nat} (h : chalVali
       have := px ch (List.mem_of_getElem? hq)
       rw [this] at h; cases h
 
-theorem old_of_grow_upd {op : Op} {s s2 s3 : Store} (g : Grow s s2) (u : Upd op.now s2 s3) : Old op s s3 := by
+theorem old_of_grow_upd {d : Deny} {op : Op} {s s2 s3 : Store} (g : Grow s s2) (u : Upd op.now s2 s3) : Old d op s s3 := by
   refine ⟨?_, ?_, ?_, .inl (u.certs.trans g.certs)⟩
   · intro i c h
     exact ⟨c, by rw [u.chals]; exact get_of_grow_chal g h, rfl, .inl rfl⟩
@@ -661,8 +683,8 @@ theorem old_of_grow_upd {op : Op} {s s2 s3 : Store} (g : Grow s s2) (u : Upd op.
     obtain ⟨o', h', j⟩ := u.order i o (get_of_grow_order g h)
     exact ⟨o', h', ordStep_of_just j⟩
 
-theorem newOrder_grow (s : Store) (acct now : Nat) (nch : List Nat) :
-    ∃ s2, Grow s s2 ∧ Upd now s2 (newOrder s acct now nch).1 := by
+theorem newOrder_grow (d : Deny) (s : Store) (acct now : Nat) (nch : List Nat) :
+    ∃ s2, Grow s s2 ∧ Upd now s2 (newOrder d s acct now nch).1 := by
   unfold newOrder
   split
   · exact ⟨s, Grow.refl s, Upd.refl _ _⟩
@@ -675,23 +697,23 @@ theorem newOrder_grow (s : Store) (acct now : Nat) (nch : List Nat) :
     let s2 : Store := { s1 with orders := s1.orders ++
       [({ acct := acct, status := .pending, expires := now + lifetime, authzs := azs, cert := none } : Order)] }
     have g2 : Grow s1 s2 := ⟨⟨[], by simp [s2]⟩, ⟨[], by simp [s2]⟩, ⟨_, rfl, by intro o ho; simp at ho; rw [ho]⟩, rfl⟩
-    have u := pollIndex_upd s2 acct now [s1.orders.length]
+    have u := pollIndex_upd d s2 acct now [s1.orders.length]
     refine ⟨s2, g1.trans g2, ?_⟩
-    cases hp : pollIndex s2 acct now [s1.orders.length] with
+    cases hp : pollIndex d s2 acct now [s1.orders.length] with
     | mk s3 r =>
       rw [hp] at u
       cases r <;> exact u
 
-theorem step_old (s : Store) (op : Op) : Old op s (step s op).1 := by
+theorem step_old (d : Deny) (s : Store) (op : Op) : Old d op s (step d s op).1 := by
   cases op with
   | newOrder acct now nch =>
-    obtain ⟨s2, g, u⟩ := newOrder_grow s acct now nch
+    obtain ⟨s2, g, u⟩ := newOrder_grow d s acct now nch
     exact old_of_grow_upd (op := .newOrder acct now nch) g u
-  | respond acct c now out => exact respond_old s acct c now out
-  | getAuthz acct a now => exact getAuthz_old s acct a now
-  | getOrder acct o now => exact getOrder_old s acct o now
-  | finalize acct o now c g u => exact finalize_old s acct o now c g u
-  | listOrders acct u now => exact listOrders_old s acct u now
+  | respond acct c now out => exact respond_old d s acct c now out
+  | getAuthz acct a now => exact getAuthz_old d s acct a now
+  | getOrder acct o now => exact getOrder_old d s acct o now
+  | finalize acct o now c g u => exact finalize_old d s acct o now c g u
+  | listOrders acct u now => exact listOrders_old d s acct u now
 
 
 /-! ## invariants of reachable stores -/
@@ -707,13 +729,13 @@ theorem sameLen_of_upd {now : Nat} {s s' : Store} (u : Upd now s s') : SameLen s
 theorem SameLen.trans {s s1 s2 : Store} (a : SameLen s s1) (b : SameLen s1 s2) : SameLen s s2 :=
   ⟨b.chals.trans a.chals, b.authzs.trans a.authzs, b.orders.trans a.orders⟩
 
-theorem respond_len (s : Store) (acct c : Nat) (out : Outcome) : SameLen s (respond s acct c out).1 := by
+theorem respond_len (d : Deny) (s : Store) (acct c : Nat) (out : Outcome) : SameLen s (respond d s acct c out).1 := by
   unfold respond
   repeat' split
   all_goals first | exact ⟨rfl, rfl, rfl⟩ | exact ⟨by simp [setChal], rfl, rfl⟩
 
-theorem finalize_len (s : Store) (acct o now : Nat) (c g u : Bool) : SameLen s (finalize s acct o now c g u).1 := by
-  have hu := sameLen_of_upd (orderUpdate_upd s o now).1
+theorem finalize_len (d : Deny) (s : Store) (acct o now : Nat) (c g u : Bool) : SameLen s (finalize d s acct o now c g u).1 := by
+  have hu := sameLen_of_upd (orderUpdate_upd d s o now).1
   unfold finalize
   cases ho : s.orders[o]? with
   | none => exact ⟨rfl, rfl, rfl⟩
@@ -721,7 +743,7 @@ theorem finalize_len (s : Store) (acct o now : Nat) (c g u : Bool) : SameLen s (
     simp only
     split
     · exact ⟨rfl, rfl, rfl⟩
-    cases h : orderUpdate s o now with
+    cases h : orderUpdate d s o now with
     | mk s1 r =>
       rw [h] at hu
       dsimp only at hu
@@ -735,23 +757,23 @@ theorem finalize_len (s : Store) (acct o now : Nat) (c g u : Bool) : SameLen s (
         · exact hu
         · exact hu
 
-theorem step_len (s : Store) (op : Op) (h : ∀ acct now nch, op ≠ .newOrder acct now nch) : SameLen s (step s op).1 := by
+theorem step_len (d : Deny) (s : Store) (op : Op) (h : ∀ acct now nch, op ≠ .newOrder acct now nch) : SameLen s (step d s op).1 := by
   cases op with
   | newOrder acct now nch => exact absurd rfl (h acct now nch)
-  | respond acct c now out => exact respond_len s acct c out
+  | respond acct c now out => exact respond_len d s acct c out
   | getAuthz acct a now =>
-    have u := (authzUpdate_upd s a now).1
+    have u := (authzUpdate_upd d s a now).1
     simp only [step, getAuthz]
     repeat' split
     all_goals first | exact ⟨rfl, rfl, rfl⟩ | (rename_i h1; rw [h1] at u; exact sameLen_of_upd u)
   | getOrder acct o now =>
-    have u := (orderUpdate_upd s o now).1
+    have u := (orderUpdate_upd d s o now).1
     simp only [step, getOrder]
     repeat' split
     all_goals first | exact ⟨rfl, rfl, rfl⟩ | (rename_i h1; rw [h1] at u; exact sameLen_of_upd u)
-  | finalize acct o now c g u => exact finalize_len s acct o now c g u
+  | finalize acct o now c g u => exact finalize_len d s acct o now c g u
   | listOrders acct url now =>
-    have u := pollIndex_upd s acct now []
+    have u := pollIndex_upd d s acct now []
     simp only [step, listOrders]
     repeat' split
     all_goals first | exact ⟨rfl, rfl, rfl⟩ | (rename_i h1; rw [h1] at u; exact sameLen_of_upd u)
@@ -769,7 +791,7 @@ theorem some_of_len {α : Type} {l l' : List α} (hl : l'.length = l.length) {i 
   have := lt_of_getElem? h
   exact ⟨l[i]'(by omega), List.getElem?_eq_getElem (by omega)⟩
 
-theorem chalValid_old {op : Op} {s s' : Store} (o : Old op s s') {c : Nat} (h : chalValid s c = true) :
+theorem chalValid_old {d : Deny} {op : Op} {s s' : Store} (o : Old d op s s') {c : Nat} (h : chalValid s c = true) :
     chalValid s' c = true := by
   unfold chalValid at h ⊢
   cases hc : s.chals[c]? with
@@ -782,7 +804,7 @@ theorem chalValid_old {op : Op} {s s' : Store} (o : Old op s s') {c : Nat} (h : 
     · simp [j, h]
     · rw [h] at p; cases p
 
-theorem validAz_old {op : Op} {s s' : Store} (o : Old op s s') {a : Nat} (h : validAz s a) : validAz s' a := by
+theorem validAz_old {d : Deny} {op : Op} {s s' : Store} (o : Old d op s s') {a : Nat} (h : validAz s a) : validAz s' a := by
   obtain ⟨az, ha, hv⟩ := h
   obtain ⟨az', ha', _, _, _, j⟩ := o.authz a az ha
   refine ⟨az', ha', ?_⟩
@@ -791,7 +813,7 @@ theorem validAz_old {op : Op} {s s' : Store} (o : Old op s s') {a : Nat} (h : va
   · rw [hv] at p; cases p
   · rw [hv] at p; cases p
 
-theorem inv_old {op : Op} {s s' : Store} (I : Inv s) (o : Old op s s') (l : SameLen s s') : Inv s' := by
+theorem inv_old {d : Deny} {op : Op} {s s' : Store} (I : Inv s) (o : Old d op s s') (l : SameLen s s') : Inv s' := by
   constructor
   · intro a az' h' hv
     obtain ⟨az, h⟩ := some_of_len l.authzs h'
@@ -846,27 +868,28 @@ theorem inv_grow {s s' : Store} (I : Inv s) (g : Grow s s') : Inv s' := by
       have := pz o (List.mem_of_getElem? h)
       rw [this] at hst; rcases hst with x | x <;> cases x
 
-theorem inv_step (s : Store) (op : Op) (I : Inv s) : Inv (step s op).1 := by
+theorem inv_step (d : Deny) (s : Store) (op : Op) (I : Inv s) : Inv (step d s op).1 := by
   by_cases h : ∃ acct now nch, op = .newOrder acct now nch
   · obtain ⟨acct, now, nch, rfl⟩ := h
-    obtain ⟨s2, g, u⟩ := newOrder_grow s acct now nch
-    exact inv_old (op := .newOrder acct now nch) (inv_grow I g) (old_of_upd u) (sameLen_of_upd u)
-  · exact inv_old I (step_old s op) (step_len s op (fun a n k e => h ⟨a, n, k, e⟩))
+    obtain ⟨s2, g, u⟩ := newOrder_grow d s acct now nch
+    exact inv_old (d := d) (op := .newOrder acct now nch) (inv_grow I g) (old_of_upd u) (sameLen_of_upd u)
+  · exact inv_old I (step_old d s op) (step_len d s op (fun a n k e => h ⟨a, n, k, e⟩))
 
-theorem run_snoc (h : List Op) (op : Op) : run (h ++ [op]) = (step (run h) op).1 := by
+theorem run_snoc (h : List Req) (r : Req) : run (h ++ [r]) = (step r.1 (run h) r.2).1 := by
   simp [run, List.foldl_append]
 
-theorem run_induction (P : Store → Prop) (h0 : P {}) (hs : ∀ s op, P s → P (step s op).1) :
+theorem run_induction (P : Store → Prop) (h0 : P {}) (hs : ∀ d s op, P s → P (step d s op).1) :
     ∀ h, P (run h) := by
-  have gen : ∀ (h : List Op) (s : Store), P s → P (h.foldl (fun s op => (step s op).1) s) := by
+  have gen : ∀ (h : List Req) (s : Store), P s → P (h.foldl (fun s r => (step r.1 s r.2).1) s) := by
     intro h
     induction h with
     | nil => intro s hp; exact hp
-    | cons op h ih => intro s hp; exact ih _ (hs s op hp)
+    | cons r h ih => intro s hp; exact ih _ (hs r.1 s r.2 hp)
   intro h
   exact gen h {} h0
 
-theorem inv_run (h : List Op) : Inv (run h) :=
+/-- the cause invariants hold after every history, whatever storage faults were injected -/
+theorem inv_run (h : List Req) : Inv (run h) :=
   run_induction Inv ⟨by intro a az h; simp at h, by intro i o h; simp at h⟩ inv_step h
 
 
@@ -877,8 +900,8 @@ structure CertInv (s : Store) : Prop where
   ref : ∀ c ∈ s.certs, c.order < s.orders.length
   count : ∀ (i : Nat) (o : Order), s.orders[i]? = some o → certsOf s i = if o.status = .valid then 1 else 0
 
-theorem certInv_old {op : Op} {s s' : Store} (C : CertInv s) (o : Old op s s') (l : SameLen s s')
-    (ff : op.faultFree = true) : CertInv s' := by
+theorem certInv_old {d : Deny} {op : Op} {s s' : Store} (C : CertInv s) (o : Old d op s s') (l : SameLen s s')
+    (ff : Req.finalWriteFails (d, op) = false) : CertInv s' := by
   rcases o.certs with hc | ⟨i, oi, hi, hc, htr⟩
   · constructor
     · intro c hcm; rw [hc] at hcm; rw [l.orders]; exact C.ref c hcm
@@ -940,23 +963,25 @@ theorem certInv_grow {s s' : Store} (C : CertInv s) (g : Grow s s') : CertInv s'
       simp [certsOf]
       intro c hc; have := C.ref c hc; omega
 
-theorem certInv_step (s : Store) (op : Op) (ff : op.faultFree = true) (C : CertInv s) : CertInv (step s op).1 := by
+theorem certInv_step (d : Deny) (s : Store) (op : Op) (ff : Req.finalWriteFails (d, op) = false) (C : CertInv s) : CertInv (step d s op).1 := by
   by_cases h : ∃ acct now nch, op = .newOrder acct now nch
   · obtain ⟨acct, now, nch, rfl⟩ := h
-    obtain ⟨s2, g, u⟩ := newOrder_grow s acct now nch
-    exact certInv_old (op := .newOrder acct now nch) (certInv_grow C g) (old_of_upd u) (sameLen_of_upd u) rfl
-  · exact certInv_old C (step_old s op) (step_len s op (fun a n k e => h ⟨a, n, k, e⟩)) ff
+    obtain ⟨s2, g, u⟩ := newOrder_grow d s acct now nch
+    exact certInv_old (d := d) (op := .newOrder acct now nch) (certInv_grow C g) (old_of_upd u) (sameLen_of_upd u) rfl
+  · exact certInv_old C (step_old d s op) (step_len d s op (fun a n k e => h ⟨a, n, k, e⟩)) ff
 
-theorem certInv_run : ∀ (h : List Op), h.all Op.faultFree = true → CertInv (run h) := by
-  have gen : ∀ (h : List Op) (s : Store), h.all Op.faultFree = true → CertInv s →
-      CertInv (h.foldl (fun s op => (step s op).1) s) := by
+/-- the certificate invariant survives every storage fault except a failing last write of a
+    finalization -/
+theorem certInv_run : ∀ (h : List Req), h.all (fun r => !r.finalWriteFails) = true → CertInv (run h) := by
+  have gen : ∀ (h : List Req) (s : Store), h.all (fun r => !r.finalWriteFails) = true → CertInv s →
+      CertInv (h.foldl (fun s r => (step r.1 s r.2).1) s) := by
     intro h
     induction h with
     | nil => intro s _ hp; exact hp
-    | cons op h ih =>
+    | cons r h ih =>
       intro s hall hp
       simp at hall
-      exact ih _ (by simpa using hall.2) (certInv_step s op hall.1 hp)
+      exact ih _ (by simpa using hall.2) (certInv_step r.1 s r.2 (by simpa using hall.1) hp)
   intro h hall
   exact gen h {} hall ⟨by intro c hc; simp at hc, by intro i o h; simp at h⟩
 
@@ -968,16 +993,16 @@ def Status.terminal (a : Status) : Prop := a = .valid ∨ a = .invalid
 /-- **terminal_absorbing** (one request, any store): every challenge, authorization and order
     that exists keeps its identity fields, moves only forward (pending < ready < valid/invalid),
     and once valid or invalid keeps its status. -/
-theorem terminal_absorbing (s : Store) (op : Op) :
-    (∀ (i : Nat) (c : Chal), s.chals[i]? = some c → ∃ c', (step s op).1.chals[i]? = some c' ∧
+theorem terminal_absorbing (d : Deny) (s : Store) (op : Op) :
+    (∀ (i : Nat) (c : Chal), s.chals[i]? = some c → ∃ c', (step d s op).1.chals[i]? = some c' ∧
         c'.acct = c.acct ∧ c.status.le c'.status ∧ (c.status.terminal → c'.status = c.status)) ∧
-    (∀ (i : Nat) (a : Authz), s.authzs[i]? = some a → ∃ a', (step s op).1.authzs[i]? = some a' ∧
+    (∀ (i : Nat) (a : Authz), s.authzs[i]? = some a → ∃ a', (step d s op).1.authzs[i]? = some a' ∧
         a'.acct = a.acct ∧ a'.expires = a.expires ∧ a'.chals = a.chals ∧
         a.status.le a'.status ∧ (a.status.terminal → a'.status = a.status)) ∧
-    (∀ (i : Nat) (o : Order), s.orders[i]? = some o → ∃ o', (step s op).1.orders[i]? = some o' ∧
+    (∀ (i : Nat) (o : Order), s.orders[i]? = some o → ∃ o', (step d s op).1.orders[i]? = some o' ∧
         o'.acct = o.acct ∧ o'.expires = o.expires ∧ o'.authzs = o.authzs ∧
         o.status.le o'.status ∧ (o.status.terminal → o'.status = o.status)) := by
-  have O := step_old s op
+  have O := step_old d s op
   refine ⟨?_, ?_, ?_⟩
   · intro i c h
     obtain ⟨c', h', a, j⟩ := O.chal i c h
@@ -1017,25 +1042,25 @@ theorem terminal_absorbing (s : Store) (op : Op) :
       · rcases p with p | ⟨p, _⟩ <;> rcases t with t | t <;> rw [t] at p <;> cases p
 
 /-- terminal_absorbing over histories: whatever requests follow, a terminal status stays -/
-theorem terminal_absorbing_history (h1 h2 : List Op) :
+theorem terminal_absorbing_history (h1 h2 : List Req) :
     (∀ (i : Nat) (c : Chal), (run h1).chals[i]? = some c → c.status.terminal →
         ∃ c', (run (h1 ++ h2)).chals[i]? = some c' ∧ c'.status = c.status) ∧
     (∀ (i : Nat) (a : Authz), (run h1).authzs[i]? = some a → a.status.terminal →
         ∃ a', (run (h1 ++ h2)).authzs[i]? = some a' ∧ a'.status = a.status) ∧
     (∀ (i : Nat) (o : Order), (run h1).orders[i]? = some o → o.status.terminal →
         ∃ o', (run (h1 ++ h2)).orders[i]? = some o' ∧ o'.status = o.status) := by
-  have gen : ∀ (h2 : List Op) (s : Store),
-      let s' := h2.foldl (fun s op => (step s op).1) s
+  have gen : ∀ (h2 : List Req) (s : Store),
+      let s' := h2.foldl (fun s r => (step r.1 s r.2).1) s
       (∀ (i : Nat) (c : Chal), s.chals[i]? = some c → c.status.terminal → ∃ c', s'.chals[i]? = some c' ∧ c'.status = c.status) ∧
       (∀ (i : Nat) (a : Authz), s.authzs[i]? = some a → a.status.terminal → ∃ a', s'.authzs[i]? = some a' ∧ a'.status = a.status) ∧
       (∀ (i : Nat) (o : Order), s.orders[i]? = some o → o.status.terminal → ∃ o', s'.orders[i]? = some o' ∧ o'.status = o.status) := by
     intro h2
     induction h2 with
     | nil => intro s; exact ⟨fun i c h _ => ⟨c, h, rfl⟩, fun i c h _ => ⟨c, h, rfl⟩, fun i c h _ => ⟨c, h, rfl⟩⟩
-    | cons op h2 ih =>
+    | cons r h2 ih =>
       intro s
-      obtain ⟨t1, t2, t3⟩ := terminal_absorbing s op
-      obtain ⟨i1, i2, i3⟩ := ih (step s op).1
+      obtain ⟨t1, t2, t3⟩ := terminal_absorbing r.1 s r.2
+      obtain ⟨i1, i2, i3⟩ := ih (step r.1 s r.2).1
       refine ⟨?_, ?_, ?_⟩
       · intro i c h t
         obtain ⟨c', h', _, _, e⟩ := t1 i c h
@@ -1049,18 +1074,18 @@ theorem terminal_absorbing_history (h1 h2 : List Op) :
         obtain ⟨c', h', _, _, _, _, e⟩ := t3 i c h
         obtain ⟨c'', h'', e'⟩ := i3 i c' h' (by rw [e t]; exact t)
         exact ⟨c'', h'', e'.trans (e t)⟩
-  have : run (h1 ++ h2) = h2.foldl (fun s op => (step s op).1) (run h1) := by simp [run, List.foldl_append]
+  have : run (h1 ++ h2) = h2.foldl (fun s r => (step r.1 s r.2).1) (run h1) := by simp [run, List.foldl_append]
   rw [this]
   exact gen h2 (run h1)
 
 /-- **authz_valid_cause** (the request in which it happens): an authorization turns valid only
     from pending, at a time not after its expiry, with one of its own challenges already valid
     before this request. -/
-theorem authz_valid_cause (s : Store) (op : Op) (i : Nat) (a a' : Authz)
-    (h : s.authzs[i]? = some a) (h' : (step s op).1.authzs[i]? = some a')
+theorem authz_valid_cause (d : Deny) (s : Store) (op : Op) (i : Nat) (a a' : Authz)
+    (h : s.authzs[i]? = some a) (h' : (step d s op).1.authzs[i]? = some a')
     (hn : a.status ≠ .valid) (hv : a'.status = .valid) :
     a.status = .pending ∧ op.now ≤ a.expires ∧ ∃ c ∈ a.chals, chalValid s c = true := by
-  obtain ⟨a'', h'', _, _, _, j⟩ := (step_old s op).authz i a h
+  obtain ⟨a'', h'', _, _, _, j⟩ := (step_old d s op).authz i a h
   rw [h'] at h''; cases h''
   rcases j with e | ⟨_, q, _⟩ | ⟨p, _, r, w⟩
   · exact absurd (e ▸ hv) hn
@@ -1070,18 +1095,18 @@ theorem authz_valid_cause (s : Store) (op : Op) (i : Nat) (a a' : Authz)
 /-- authz_valid_cause over histories: in every reachable store a valid authorization has a valid
     challenge among its own; new authorizations start pending (`Grow`), so validity always
     arose by the step above -/
-theorem authz_valid_cause_history (h : List Op) (i : Nat) (a : Authz)
+theorem authz_valid_cause_history (h : List Req) (i : Nat) (a : Authz)
     (ha : (run h).authzs[i]? = some a) (hv : a.status = .valid) :
     ∃ c ∈ a.chals, chalValid (run h) c = true :=
   (inv_run h).azCause i a ha hv
 
 /-- **order_ready_cause** (the request in which it happens): an order turns ready only from
     pending, at a time not after its expiry, and with every one of its authorizations valid. -/
-theorem order_ready_cause (s : Store) (op : Op) (i : Nat) (o o' : Order)
-    (h : s.orders[i]? = some o) (h' : (step s op).1.orders[i]? = some o')
+theorem order_ready_cause (d : Deny) (s : Store) (op : Op) (i : Nat) (o o' : Order)
+    (h : s.orders[i]? = some o) (h' : (step d s op).1.orders[i]? = some o')
     (hn : o.status ≠ .ready) (hr : o'.status = .ready) :
-    o.status = .pending ∧ op.now ≤ o.expires ∧ ∀ a ∈ o.authzs, validAz (step s op).1 a := by
-  obtain ⟨o'', h'', _, _, _, j⟩ := (step_old s op).order i o h
+    o.status = .pending ∧ op.now ≤ o.expires ∧ ∀ a ∈ o.authzs, validAz (step d s op).1 a := by
+  obtain ⟨o'', h'', _, _, _, j⟩ := (step_old d s op).order i o h
   rw [h'] at h''; cases h''
   rcases j with ⟨e, _⟩ | ⟨_, q, _⟩ | ⟨p, _, _, r, w⟩ | ⟨q, _⟩
   · exact absurd (e ▸ hr) hn
@@ -1091,7 +1116,7 @@ theorem order_ready_cause (s : Store) (op : Op) (i : Nat) (o o' : Order)
 
 /-- order_ready_cause over histories: in every reachable store the authorizations of a ready
     (or valid) order are all valid -/
-theorem order_ready_cause_history (h : List Op) (i : Nat) (o : Order)
+theorem order_ready_cause_history (h : List Req) (i : Nat) (o : Order)
     (ho : (run h).orders[i]? = some o) (hs : o.status = .ready ∨ o.status = .valid) :
     ∀ a ∈ o.authzs, validAz (run h) a :=
   (inv_run h).ordCause i o ho hs
@@ -1100,13 +1125,13 @@ theorem order_ready_cause_history (h : List Op) (i : Nat) (o : Order)
     with matching CSR and successful signing, at a time not after its expiry, from ready (or
     from pending with every authorization valid, the request computing ready first), and exactly
     one certificate for this order is stored in that request. -/
-theorem order_valid_cause (s : Store) (op : Op) (i : Nat) (o o' : Order)
-    (h : s.orders[i]? = some o) (h' : (step s op).1.orders[i]? = some o')
+theorem order_valid_cause (d : Deny) (s : Store) (op : Op) (i : Nat) (o o' : Order)
+    (h : s.orders[i]? = some o) (h' : (step d s op).1.orders[i]? = some o')
     (hn : o.status ≠ .valid) (hv : o'.status = .valid) :
     op = .finalize o.acct i op.now true true false ∧ op.now ≤ o.expires ∧
-    (o.status = .ready ∨ (o.status = .pending ∧ ∀ a ∈ o.authzs, validAz (step s op).1 a)) ∧
-    (step s op).1.certs = s.certs ++ [⟨i, o.acct⟩] ∧ o'.cert = some s.certs.length := by
-  obtain ⟨o'', h'', _, _, _, j⟩ := (step_old s op).order i o h
+    (o.status = .ready ∨ (o.status = .pending ∧ ∀ a ∈ o.authzs, validAz (step d s op).1 a)) ∧
+    (step d s op).1.certs = s.certs ++ [⟨i, o.acct⟩] ∧ o'.cert = some s.certs.length := by
+  obtain ⟨o'', h'', _, _, _, j⟩ := (step_old d s op).order i o h
   rw [h'] at h''; cases h''
   rcases j with ⟨e, _⟩ | ⟨_, q, _⟩ | ⟨_, q, _⟩ | ⟨_, a, b, c, d, e⟩
   · exact absurd (e ▸ hv) hn
@@ -1114,57 +1139,79 @@ theorem order_valid_cause (s : Store) (op : Op) (i : Nat) (o o' : Order)
   · rw [hv] at q; cases q
   · exact ⟨a, b, c, e, d⟩
 
-/-- **cert_only_in_transition**: in a request without injected storage fault, the certificate
-    table is unchanged, or grows by exactly one certificate, for an order that turns valid in
-    this very request. -/
-theorem cert_only_in_transition (s : Store) (op : Op) (ff : op.faultFree = true) :
-    (step s op).1.certs = s.certs ∨
-    ∃ i o o', s.orders[i]? = some o ∧ (step s op).1.orders[i]? = some o' ∧
-      o.status ≠ .valid ∧ o'.status = .valid ∧ (step s op).1.certs = s.certs ++ [⟨i, o.acct⟩] := by
-  rcases (step_old s op).certs with e | ⟨i, o, ho, hc, ⟨o', ho', a, b⟩ | f⟩
+/-- **cert_only_in_transition**: unless the last write of a finalization fails, a request leaves
+    the certificate table unchanged, or adds exactly one certificate, for an order that turns
+    valid in this very request. (Every other storage fault is covered.) -/
+theorem cert_only_in_transition (d : Deny) (s : Store) (op : Op)
+    (ff : Req.finalWriteFails (d, op) = false) :
+    (step d s op).1.certs = s.certs ∨
+    ∃ i o o', s.orders[i]? = some o ∧ (step d s op).1.orders[i]? = some o' ∧
+      o.status ≠ .valid ∧ o'.status = .valid ∧ (step d s op).1.certs = s.certs ++ [⟨i, o.acct⟩] := by
+  rcases (step_old d s op).certs with e | ⟨i, o, ho, hc, ⟨o', ho', a, b⟩ | f⟩
   · exact .inl e
   · exact .inr ⟨i, o, o', ho, ho', a, b, hc⟩
   · rw [ff] at f; cases f
 
-/-- **cert_iff_transition**: after any history without injected storage fault, an order has
-    exactly one certificate if it is valid and none otherwise (so: as many certificates as
-    transitions into valid, at most one). -/
-theorem cert_iff_transition (h : List Op) (ff : h.all Op.faultFree = true) (i : Nat) (o : Order)
-    (ho : (run h).orders[i]? = some o) :
+/-- **cert_iff_transition**: after any history in which no finalization lost its last write
+    (in particular after every fault-free history), an order has exactly one certificate if it is
+    valid and none otherwise (so: as many certificates as transitions into valid, at most one). -/
+theorem cert_iff_transition (h : List Req) (ff : h.all (fun r => !r.finalWriteFails) = true)
+    (i : Nat) (o : Order) (ho : (run h).orders[i]? = some o) :
     certsOf (run h) i = (if o.status = .valid then 1 else 0) ∧ certsOf (run h) i ≤ 1 := by
   have := (certInv_run h ff).count i o ho
   refine ⟨this, ?_⟩
   rw [this]; split <;> simp
 
+theorem faultFree_finalWrite (r : Req) (h : r.faultFree = true) : r.finalWriteFails = false := by
+  obtain ⟨d, op⟩ := r
+  cases op <;> simp [Req.faultFree, Req.finalWriteFails] at h ⊢
+  rename_i acct o now c g u
+  exact ⟨h.2, by rw [h.1]; simp⟩
+
+/-- the property's own quantifier: fault-free histories -/
+theorem cert_iff_transition_faultFree (h : List Req) (ff : h.all Req.faultFree = true)
+    (i : Nat) (o : Order) (ho : (run h).orders[i]? = some o) :
+    certsOf (run h) i = (if o.status = .valid then 1 else 0) ∧ certsOf (run h) i ≤ 1 := by
+  refine cert_iff_transition h ?_ i o ho
+  rw [List.all_eq_true] at ff ⊢
+  intro r hr
+  simp [faultFree_finalWrite r (ff r hr)]
+
 /-- outside the property's quantifier: when the final `UpdateOrder` of a finalization fails, the
     certificate is already stored and the order is still ready; finalizing again stores a second
-    certificate for the same order. -/
+    certificate for the same order. Both ways of losing that write are shown. -/
 theorem fault_double_certificate :
-    ∃ h : List Op, certsOf (run h) 0 = 2 ∧ h.all Op.faultFree = false :=
-  ⟨[.newOrder 0 0 [1], .respond 0 0 1 .success, .finalize 0 0 2 true true true,
-    .finalize 0 0 3 true true false], by decide, by decide⟩
+    (∃ h : List Req, certsOf (run h) 0 = 2 ∧ h.all (fun r => !r.finalWriteFails) = false) ∧
+    (certsOf (run [(.none, .newOrder 0 0 [1]), (.none, .respond 0 0 1 .success), (.none, .getOrder 0 0 2),
+        (.order 0, .finalize 0 0 3 true true false), (.none, .finalize 0 0 4 true true false)]) 0 = 2) :=
+  ⟨⟨[(.none, .newOrder 0 0 [1]), (.none, .respond 0 0 1 .success), (.none, .finalize 0 0 2 true true true),
+    (.none, .finalize 0 0 3 true true false)], by decide, by decide⟩, by decide⟩
 
 /-- every order, authorization and challenge starts pending: the empty history has no objects and a
     request only appends pending ones (`Grow`) -/
-theorem new_objects_pending (s : Store) (acct now : Nat) (nch : List Nat) :
-    ∃ s2, Grow s s2 ∧ Upd now s2 (step s (.newOrder acct now nch)).1 := newOrder_grow s acct now nch
+theorem new_objects_pending (d : Deny) (s : Store) (acct now : Nat) (nch : List Nat) :
+    ∃ s2, Grow s s2 ∧ Upd now s2 (step d s (.newOrder acct now nch)).1 := newOrder_grow d s acct now nch
 
 /-! ### the hypotheses are met by ordinary histories -/
 
 /-- a full happy path: two identifiers, both authorizations validated, order ready, finalized -/
-def happy : List Op :=
+def happy : List Req :=
   [.newOrder 0 100 [3, 2], .respond 0 1 101 .success, .respond 0 3 102 .success,
-   .getOrder 0 0 103, .finalize 0 0 104 true true false]
+   .getOrder 0 0 103, .finalize 0 0 104 true true false].map (fun op => (Deny.none, op))
 
 example : (run happy).orders[0]?.map (·.status) = some .valid ∧ certsOf (run happy) 0 = 1 := by decide
 example : (run (happy.take 4)).orders[0]?.map (·.status) = some .ready := by decide
 example : (run (happy.take 3)).authzs[1]?.map (·.status) = some .pending ∧
     (run (happy.take 4)).authzs[1]?.map (·.status) = some .valid := by decide
 /-- exactly at the expiry the order is still usable, one second later it is invalid -/
-example : (run [.newOrder 0 0 [1], .respond 0 0 5 .success, .getOrder 0 0 lifetime]).orders[0]?.map (·.status) = some .ready := by decide
-example : (run [.newOrder 0 0 [1], .respond 0 0 5 .success, .getOrder 0 0 (lifetime + 1)]).orders[0]?.map (·.status) = some .invalid := by decide
+example : (run ([.newOrder 0 0 [1], .respond 0 0 5 .success, .getOrder 0 0 lifetime].map (fun op => (Deny.none, op)))).orders[0]?.map (·.status) = some .ready := by decide
+example : (run ([.newOrder 0 0 [1], .respond 0 0 5 .success, .getOrder 0 0 (lifetime + 1)].map (fun op => (Deny.none, op)))).orders[0]?.map (·.status) = some .invalid := by decide
 /-- a second finalize of a valid order signs nothing -/
-example : certsOf (run (happy ++ [.finalize 0 0 105 true true false])) 0 = 1 := by decide
+example : certsOf (run (happy ++ [(.none, .finalize 0 0 105 true true false)])) 0 = 1 := by decide
+/-- a failed authorization write during an order evaluation: the order is not ready, the request
+    fails, nothing is stored; the next evaluation succeeds -/
+example : (run [(.none, .newOrder 0 0 [1]), (.none, .respond 0 0 1 .success), (.authz 0, .getOrder 0 0 2)]).orders[0]?.map (·.status) = some .pending ∧
+    (run [(.none, .newOrder 0 0 [1]), (.none, .respond 0 0 1 .success), (.authz 0, .getOrder 0 0 2), (.none, .getOrder 0 0 3)]).orders[0]?.map (·.status) = some .ready := by decide
 
 /-! ## ownership (used by C13: "backed by a valid authorization of the same account") -/
 
@@ -1176,7 +1223,7 @@ structure Own (s : Store) : Prop where
   az : ∀ (a : Nat) (az : Authz), s.authzs[a]? = some az → ∀ c ∈ az.chals,
     ∃ ch, s.chals[c]? = some ch ∧ ch.acct = az.acct
 
-theorem own_old {op : Op} {s s' : Store} (W : Own s) (o : Old op s s') (l : SameLen s s') : Own s' := by
+theorem own_old {d : Deny} {op : Op} {s s' : Store} (W : Own s) (o : Old d op s s') (l : SameLen s s') : Own s' := by
   constructor
   · intro i o' h' a ha
     obtain ⟨o0, h⟩ := some_of_len l.orders h'
@@ -1262,7 +1309,7 @@ theorem createAuthzs_own (acct exp : Nat) : ∀ (ns : List Nat) (s : Store), Own
     · exact hall a ha
 
 
-theorem own_step (s : Store) (op : Op) (W : Own s) : Own (step s op).1 := by
+theorem own_step (d : Deny) (s : Store) (op : Op) (W : Own s) : Own (step d s op).1 := by
   by_cases h : ∃ acct now nch, op = .newOrder acct now nch
   · obtain ⟨acct, now, nch, rfl⟩ := h
     simp only [step]
@@ -1290,27 +1337,27 @@ theorem own_step (s : Store) (op : Op) (W : Own s) : Own (step s op).1 := by
             subst this
             exact hall a ha
         · exact W1.az
-      have u := pollIndex_upd { s1 with orders := s1.orders ++
+      have u := pollIndex_upd d { s1 with orders := s1.orders ++
           [({ acct := acct, status := .pending, expires := now + lifetime, authzs := azs, cert := none } : Order)] }
         acct now [s1.orders.length]
-      cases hp : pollIndex { s1 with orders := s1.orders ++
+      cases hp : pollIndex d { s1 with orders := s1.orders ++
           [({ acct := acct, status := .pending, expires := now + lifetime, authzs := azs, cert := none } : Order)] }
         acct now [s1.orders.length] with
       | mk s3 r =>
         rw [hp] at u
         dsimp only at u
-        have : Own s3 := own_old (op := .newOrder acct now nch) W2 (old_of_upd u) (sameLen_of_upd u)
+        have : Own s3 := own_old (d := d) (op := .newOrder acct now nch) W2 (old_of_upd u) (sameLen_of_upd u)
         cases r <;> exact this
-  · exact own_old W (step_old s op) (step_len s op (fun a n k e => h ⟨a, n, k, e⟩))
+  · exact own_old W (step_old d s op) (step_len d s op (fun a n k e => h ⟨a, n, k, e⟩))
 
 /-- **authz_owner**: after every history, the authorizations of an order exist and belong to the
     order's account, and the challenges of an authorization exist and belong to its account. -/
-theorem authz_owner (h : List Op) : Own (run h) :=
+theorem authz_owner (h : List Req) : Own (run h) :=
   run_induction Own ⟨by intro i o h; simp at h, by intro a az h; simp at h⟩ own_step h
 
 /-- C13's "each identifier is backed by a valid authorization of the same account": after every
     history, every authorization of a ready or valid order is valid and owned by the order's account. -/
-theorem finalizable_order_authorizations (h : List Op) (i : Nat) (o : Order)
+theorem finalizable_order_authorizations (h : List Req) (i : Nat) (o : Order)
     (ho : (run h).orders[i]? = some o) (hs : o.status = .ready ∨ o.status = .valid) :
     ∀ a ∈ o.authzs, ∃ az, (run h).authzs[a]? = some az ∧ az.status = .valid ∧ az.acct = o.acct := by
   intro a ha
@@ -1319,4 +1366,279 @@ theorem finalizable_order_authorizations (h : List Op) (i : Nat) (o : Order)
   rw [haz] at haz'; cases haz'
   exact ⟨az, haz, hv, hac⟩
 
+/-- **inv_single_fault**: which clauses survive storage faults. For every history in which any
+    request may run under any `Deny` fault, with the `dbError` verdict or with a failing final
+    `UpdateOrder` (arbitrarily many faults, not only one):
+    (1) every valid authorization has a valid challenge of its own,
+    (2) every ready or valid order has only valid authorizations,
+    (3) ownership is intact,
+    (4) terminal statuses are absorbing (`terminal_absorbing`, proved for every `d`);
+    and if no finalization lost its last write, also
+    (5) certificates per order = 1 if valid else 0.
+    Only (5) needs that hypothesis: `fault_double_certificate`. -/
+theorem inv_single_fault (h : List Req) :
+    Inv (run h) ∧ Own (run h) ∧
+    (h.all (fun r => !r.finalWriteFails) = true → CertInv (run h)) :=
+  ⟨inv_run h, authz_owner h, certInv_run h⟩
+
 end Verif.AcmeSM
+
+/-! ## observation about concurrency (outside C10's quantifier, which is over sequential histories)
+
+  `DB.UpdateOrder` re-reads the record and compares-and-swaps against what it just read. The
+  theorems below are about `Verif.AcmeConc`, whose atomic steps are the database calls of
+  `FinalizeOrder` and of an order poll; the stage `conc` of the C10 check replays the same
+  schedules on the real handlers and store. -/
+namespace Verif.AcmeConc
+open Verif
+
+/-- **conc_double_issue** (the code as written): two simultaneous finalizations of one ready
+    order, each loading the order before the other writes, store two certificates, and both
+    `UpdateOrder` calls succeed. -/
+theorem conc_double_issue :
+    (exec .reread { ths := [{ kind := .fin }, { kind := .fin }] } [0, 1, 0, 1, 0, 0, 1, 1]).g.certs = 2 ∧
+    (exec .reread { ths := [{ kind := .fin }, { kind := .fin }] } [0, 1, 0, 1, 0, 0, 1, 1]).g.writes = 2 := by
+  decide
+
+/-- **conc_terminal_overwritten** (the code as written): a poll that loaded the order while it was
+    ready and evaluates it after the expiry overwrites the status valid written by a finalization
+    in between (and erases the certificate id); in the other order a finalization overwrites invalid
+    with valid. The trace shows the stored status after every database call. -/
+theorem conc_terminal_overwritten :
+    trace .reread { ths := [{ kind := .fin }, { kind := .poll }] } [0, 1, 0, 0, 0, 1, 1] =
+      [.ready, .ready, .ready, .ready, .valid, .valid, .invalid] ∧
+    (exec .reread { ths := [{ kind := .fin }, { kind := .poll }] } [0, 1, 0, 0, 0, 1, 1]).g.cur.cert = none ∧
+    trace .reread { ths := [{ kind := .fin }, { kind := .poll }] } [0, 1, 1, 1, 0, 0, 0] =
+      [.ready, .ready, .ready, .invalid, .invalid, .invalid, .valid] := by
+  decide
+
+/-- a compare-and-swap against the caller's record alone does not stop the second certificate:
+    it is stored before the order is written -/
+theorem original_still_double_issues :
+    (exec .original { ths := [{ kind := .fin }, { kind := .fin }] } [0, 1, 0, 1, 0, 1]).g.certs = 2 ∧
+    (exec .original { ths := [{ kind := .fin }, { kind := .fin }] } [0, 1, 0, 1, 0, 1]).g.writes = 1 := by
+  decide
+
+
+/-! ### a real compare-and-swap against the caller's record: at most one order write succeeds -/
+
+def GI (g : G) : Prop := (g.writes = 0 ∧ g.cur = initRec) ∨ (g.writes = 1 ∧ g.cur.status ≠ .ready)
+
+/-- a request that is past its load and has not finished loaded the initial (ready) record -/
+def TI (t : Th) : Prop := (t.pc = 1 ∨ t.pc = 2) → t.loaded = initRec
+
+theorem cas_GI (g : G) (nu : Rec) (hg : GI g) (hn : nu.status ≠ .ready) : GI (cas g initRec nu).1 := by
+  unfold cas
+  split
+  · rename_i h
+    rcases hg with ⟨w, _⟩ | ⟨_, c⟩
+    · exact .inr ⟨by simp [w], hn⟩
+    · rw [h] at c; exact absurd rfl c
+  · exact hg
+
+theorem thStep_original (g : G) (t : Th) (hg : GI g) (ht : TI t) :
+    GI (thStep .original g t).1 ∧ TI (thStep .original g t).2 := by
+  unfold thStep
+  split
+  · -- load
+    refine ⟨hg, ?_⟩
+    intro hp
+    by_cases hr : g.cur.status = .ready
+    · rcases hg with ⟨_, c⟩ | ⟨_, c⟩
+      · exact c
+      · exact absurd hr c
+    · simp [hr] at hp
+  · -- fin 1: certificate
+    rename_i hk hpc
+    exact ⟨by simpa [GI] using hg, fun _ => ht (.inl hpc)⟩
+  · -- fin 2: swap
+    rename_i hk hpc
+    have hl := ht (.inr hpc)
+    refine ⟨by simp only; rw [hl]; exact cas_GI g _ hg (by simp), fun hp => by simp at hp⟩
+  · exact ⟨hg, fun hp => by simp at hp⟩
+  · -- poll 1: swap
+    rename_i hk hpc
+    have hl := ht (.inl hpc)
+    refine ⟨by simp only; rw [hl]; exact cas_GI g _ hg (by simp), fun hp => by simp at hp⟩
+  · exact ⟨hg, fun hp => by simp at hp⟩
+  · exact ⟨hg, fun hp => by simp at hp⟩
+
+theorem wstep_original (w : W) (i : Nat) (hg : GI w.g) (ht : ∀ t ∈ w.ths, TI t) :
+    GI (wstep .original w i).g ∧ ∀ t ∈ (wstep .original w i).ths, TI t := by
+  unfold wstep
+  cases h : w.ths[i]? with
+  | none => exact ⟨hg, ht⟩
+  | some t =>
+    have := thStep_original w.g t hg (ht t (List.mem_of_getElem? h))
+    simp only
+    generalize thStep .original w.g t = r at this ⊢
+    obtain ⟨g', t'⟩ := r
+    refine ⟨this.1, ?_⟩
+    intro x hx
+    rcases List.mem_or_eq_of_mem_set hx with hx | rfl
+    · exact ht x hx
+    · exact this.2
+
+/-- **original_one_write**: if `UpdateOrder` compared against the record the request loaded, then for
+    any number of simultaneous finalizations and polls of one ready order and every schedule, at
+    most one order write succeeds and the record never returns to ready (a terminal status,
+    once written, stays). -/
+theorem original_one_write (ths : List Th) (h0 : ∀ t ∈ ths, t.pc = 0) (sched : List Nat) :
+    (exec .original { ths := ths } sched).g.writes ≤ 1 ∧
+    ((exec .original { ths := ths } sched).g.writes = 1 → (exec .original { ths := ths } sched).g.cur.status ≠ .ready) := by
+  have gen : ∀ (sched : List Nat) (w : W), GI w.g → (∀ t ∈ w.ths, TI t) → GI (exec .original w sched).g := by
+    intro sched
+    induction sched with
+    | nil => intro w hg _; exact hg
+    | cons i is ih =>
+      intro w hg ht
+      obtain ⟨a, b⟩ := wstep_original w i hg ht
+      exact ih _ a b
+  have := gen sched { ths := ths } (.inl ⟨rfl, rfl⟩) (fun t ht hp => by rw [h0 t ht] at hp; simp at hp)
+  rcases this with ⟨w, _⟩ | ⟨w, c⟩
+  · exact ⟨by omega, fun h => by omega⟩
+  · exact ⟨by omega, fun _ => c⟩
+
+
+/-! ### the proposed repair: claim the order (ready -> processing) before signing -/
+
+/-- a finalization that won the claim and has not stored its certificate yet -/
+def claimed (t : Th) : Bool := t.kind == .fin && t.pc == 2
+
+def b (t : Th) : Nat := if claimed t then 1 else 0
+
+def EI (t : Th) : Prop := t.pc = 1 → t.loaded.status = .ready
+
+theorem countP_set (p : Th → Bool) : ∀ (l : List Th) (i : Nat) (t t' : Th), l[i]? = some t →
+    (l.set i t').countP p + (if p t then 1 else 0) = l.countP p + (if p t' then 1 else 0) := by
+  intro l
+  induction l with
+  | nil => intro i t t' h; simp at h
+  | cons x xs ih =>
+    intro i t t' h
+    cases i with
+    | zero =>
+      simp at h; subst h
+      simp [List.countP_cons]
+      by_cases h1 : p x = true <;> by_cases h2 : p t' = true <;> simp [h1, h2] <;> omega
+    | succ i =>
+      simp at h
+      have := ih i t t' h
+      simp [List.countP_cons]
+      omega
+
+theorem thStep_claim (g : G) (t : Th) (N : Nat)
+    (h1 : g.certs + N + b t ≤ 1) (h2 : g.cur.status = .ready → g.certs + N + b t = 0) (he : EI t) :
+    (thStep .claim g t).1.certs + N + b (thStep .claim g t).2 ≤ 1 ∧
+    ((thStep .claim g t).1.cur.status = .ready → (thStep .claim g t).1.certs + N + b (thStep .claim g t).2 = 0) ∧
+    EI (thStep .claim g t).2 := by
+  unfold thStep
+  split
+  · -- load
+    rename_i hpc
+    have hb : b t = 0 := by simp [b, claimed, hpc]
+    by_cases hr : g.cur.status = .ready
+    · simp [hr, b, claimed, EI]; have := h2 hr; omega
+    · simp [hr, b, claimed, EI]; omega
+  · -- fin 1: claim
+    rename_i hk hpc
+    have hb : b t = 0 := by simp [b, claimed, hpc]
+    have hl := he hpc
+    simp only [cas]
+    by_cases hc : g.cur = t.loaded
+    · have hr : g.cur.status = .ready := by rw [hc]; exact hl
+      have h0 := h2 hr
+      simp [hc, b, claimed, hk, EI]
+      omega
+    · simp [hc, b, claimed, EI]; constructor
+      · omega
+      · intro hr; have := h2 hr; omega
+  · -- fin 2: certificate
+    rename_i hk hpc
+    have hb : b t = 1 := by simp [b, claimed, hk, hpc]
+    have hnr : g.cur.status ≠ .ready := fun hr => by have := h2 hr; omega
+    simp [b, claimed, EI, hnr]; omega
+  · -- fin 3: processing -> valid
+    rename_i hk hpc
+    have hb : b t = 0 := by simp [b, claimed, hpc]
+    simp only [cas]
+    split
+    · simp [b, claimed, EI]; omega
+    · simp [b, claimed, EI]; constructor
+      · omega
+      · intro hr; have := h2 hr; omega
+  · -- poll 1: -> invalid
+    rename_i hk hpc
+    have hb : b t = 0 := by simp [b, claimed, hk]
+    simp only [cas]
+    split
+    · simp [b, claimed, EI]; omega
+    · simp [b, claimed, EI]; constructor
+      · omega
+      · intro hr; have := h2 hr; omega
+  · rename_i hk hpc
+    have hb : b t = 0 := by simp [b, claimed, hk]
+    simp [b, claimed, EI]; constructor
+    · omega
+    · intro hr; have := h2 hr; omega
+  · have : b { t with pc := 9 } = 0 := by simp [b, claimed]
+    simp only [this, EI]
+    refine ⟨by omega, fun hr => by have := h2 hr; omega, by simp⟩
+
+
+def n2 (ths : List Th) : Nat := ths.countP claimed
+
+structure CI (w : W) : Prop where
+  le : w.g.certs + n2 w.ths ≤ 1
+  rdy : w.g.cur.status = .ready → w.g.certs + n2 w.ths = 0
+  ei : ∀ t ∈ w.ths, EI t
+
+theorem wstep_claim (w : W) (i : Nat) (c : CI w) : CI (wstep .claim w i) := by
+  unfold wstep
+  cases h : w.ths[i]? with
+  | none => exact c
+  | some t =>
+    simp only
+    have hcnt : ∀ t', n2 (w.ths.set i t') + b t = n2 w.ths + b t' := by
+      intro t'; simpa [n2, b] using countP_set claimed w.ths i t t' h
+    have hbt : b t ≤ n2 w.ths := by
+      have := hcnt t; simp [n2, b] at this ⊢
+      have hm := List.mem_of_getElem? h
+      by_cases hc : claimed t = true
+      · simp [hc]; exact ⟨t, hm, hc⟩
+      · simp [hc]
+    have key := thStep_claim w.g t (n2 w.ths - b t)
+      (by have := c.le; omega) (fun hr => by have := c.rdy hr; omega) (c.ei t (List.mem_of_getElem? h))
+    generalize thStep .claim w.g t = r at key ⊢
+    obtain ⟨g', t'⟩ := r
+    have e := hcnt t'
+    refine ⟨?_, ?_, ?_⟩
+    · have := key.1; simp only at this ⊢; omega
+    · intro hr; have := key.2.1 hr; simp only at this ⊢; omega
+    · intro x hx
+      rcases List.mem_or_eq_of_mem_set hx with hx | rfl
+      · exact c.ei x hx
+      · exact key.2.2
+
+/-- **claim_one_certificate** (the proposed repair): if a finalization first swaps the order from
+    ready to processing against the record it loaded, and only then signs, then for any number of
+    simultaneous finalizations and polls of one ready order and every schedule at most one
+    certificate is stored. -/
+theorem claim_one_certificate (ths : List Th) (h0 : ∀ t ∈ ths, t.pc = 0) (sched : List Nat) :
+    (exec .claim { ths := ths } sched).g.certs ≤ 1 := by
+  have gen : ∀ (sched : List Nat) (w : W), CI w → CI (exec .claim w sched) := by
+    intro sched
+    induction sched with
+    | nil => intro w c; exact c
+    | cons i is ih => intro w c; exact ih _ (wstep_claim w i c)
+  have hn : n2 ths = 0 := by
+    simp [n2, List.countP_eq_zero]
+    intro t ht; simp [claimed, h0 t ht]
+  have := (gen sched { ths := ths } ⟨by simp [hn], fun _ => by simp [hn], fun t ht hp => by rw [h0 t ht] at hp; simp at hp⟩).le
+  omega
+
+/-- the repair is not vacuous: a lone finalization still completes -/
+example : (exec .claim { ths := [{ kind := .fin }] } [0, 0, 0, 0]).g = { cur := ⟨.valid, some 1⟩, certs := 1, writes := 2 } := by decide
+example : (exec .claim { ths := [{ kind := .fin }, { kind := .fin }] } [0, 1, 0, 1, 0, 1, 0, 1]).g.certs = 1 := by decide
+
+end Verif.AcmeConc
